@@ -202,6 +202,29 @@ def tla_lit(v):
     raise ValueError(v)
 
 
+def replay_file(pid, path, fn):
+    """Re-execute the run that produced a replay file (same seed and tier) against the current /repo and report whether the
+    same clause is violated again; prints the stored behaviour first."""
+    d = json.load(open(path))
+    print("replay of %s: property=%s clause=%s seed=%s tier=%s" % (path, d.get("property"), d.get("clause"), d.get("seed"), d.get("tier")))
+    print("stored behaviour (abstract steps / inputs):")
+    print(json.dumps(d.get("behaviour"), indent=1, default=str)[:6000])
+    os.environ["VERIF_SEED"] = str(d.get("seed", 0))
+    import io
+    import contextlib
+    buf = io.StringIO()
+    with contextlib.redirect_stdout(buf):
+        rc = fn(d.get("tier", "quick"))
+    out = buf.getvalue()
+    again = [l for l in out.splitlines() if l.strip().startswith("clause:") and d.get("clause", "") in l]
+    print("re-run with the stored seed: exit %s, the stored clause %s (%d occurrences)" % (
+        rc, "is violated again" if again else "does not occur any more", len(again)))
+    for l in out.splitlines():
+        if l.startswith(("VIOLATION", "KNOWN-FINDING", "MODEL-DRIFT", pid)):
+            print(l)
+    return rc
+
+
 def run_main(pid, fn):
     """fn(tier) -> exit code.  Any unexpected exception is a machinery failure (exit 2)."""
     import argparse
@@ -211,7 +234,7 @@ def run_main(pid, fn):
     a, _ = ap.parse_known_args(sys.argv[2:])
     try:
         if a.replay:
-            return fn(a.tier, replay=a.replay)
+            return replay_file(pid, a.replay, fn)
         return fn(a.tier)
     except SystemExit:
         raise
